@@ -84,6 +84,9 @@ inductive Ev
   | hup
   | term
   | stopped
+  /-- environment: another process creates a new file under a name that is free (e.g. a second
+  nsq_to_file instance putting a finished file into the shared output dir) -/
+  | ext (p : Path) (data : Bytes)
 deriving Repr
 
 structure St where
@@ -264,6 +267,7 @@ def step (c : Cfg) (io : Nat → Fault) (st : St) (ev : Ev) (starved : Bool) : S
   | .hup => closeOut c io (syncBlock c io st)
   | .term => syncBlock c io st
   | .stopped => finishRun (closeOut c io (syncBlock c io st))
+  | .ext p data => if (st.fs.get p).isSome then st else { st with fs := st.fs.set p ⟨data, [], data.length⟩ }
 
 def run (c : Cfg) (io : Nat → Fault) (st : St) : List (Ev × Bool) → St
   | [] => st
